@@ -1,4 +1,6 @@
 import RustCcModel.Proofs.CtlSimp
+import RustCcModel.Proofs.InvReach
+import RustCcModel.Proofs.Untouched
 /-! # C14 — `new_cyclic`: Weak dead until initialised; uninitialised data never touched -/
 namespace RustCc.C14
 open World
@@ -40,5 +42,53 @@ theorem closure_panic_releases (c : Cfg) (w : World) (k : Nat) (id : Id) (sp : N
   simp only [hm, if_true]
   repeat' split
   all_goals simp [freeBox, emit, upd, updMeta, Metas.set]
+
+/-! ### For every reachable world -/
+
+/-- **For as long as the closure of `new_cyclic` runs** — whatever it does: clone or store its `Weak`, allocate, start
+collections, run other `new_cyclic` calls, catch panics — the box exists, its value is not initialised, no strong pointer to
+it exists, so the `Weak` reports `strong_count() = 0` and cannot be upgraded; and the box is neither buffered nor in a
+list of a running collection: no collection takes the half-built object for garbage or traces it. -/
+theorem closure_window (c : Cfg) (nH nW nK : Nat) (w : World) (h : Reachable c nH nW nK w)
+    (k : Nat) (id : Id) (sp : NewSpec) (selfw : Option Nat) (hf : Frame.newCyclicEnd k id sp selfw ∈ w.stack) :
+    (w.heap id).boxLive = true ∧ (w.heap id).valLive = false ∧ (w.heap id).rc = 0 ∧
+    w.weakStrong (.to id) = 0 ∧ id ∉ w.pc ∧ id ∉ listed w.stack := by
+  have hi := (reachable_all c nH nW nK w h).inv
+  have hcy : id ∈ cycs w.stack := by
+    unfold cycs; rw [List.mem_flatMap]; exact ⟨_, hf, by simp [Frame.cyc]⟩
+  have hz := hi.oi.cycZ id hcy
+  obtain ⟨z1, z2, z3⟩ := hi.oi.zero id hz
+  have hv := hi.oi.cyc id hcy
+  have hr : (w.heap id).rc = 0 := z2
+  refine ⟨z1, hv, hr, closure_weak_dead w id hr, ?_, ?_⟩
+  · intro hp
+    have := (hi.oi.mPc id).2 hp
+    have e : (w.cores id).mark = (w.heap id).mark := rfl
+    rw [z3] at this; cases this
+  · intro hl
+    have hnd := hi.oi.ownNodup
+    exact (List.nodup_append.1 hnd).2.2 id hz id hl rfl
+
+/-- **Uninitialised data is never touched**: in every reachable world — while the closure runs, inside collections it
+starts, while a panic unwinds — no step runs the destructor or the finalizer of the value under construction. -/
+theorem uninitialised_never_touched (c : Cfg) (nH nW nK : Nat) (w : World) (h : Reachable c nH nW nK w)
+    (k : Nat) (id : Id) (sp : NewSpec) (selfw : Option Nat) (hf : Frame.newCyclicEnd k id sp selfw ∈ w.stack) (b : Bool) :
+    (b, id) ∉ vEv (newEvents w (step c w)) := by
+  intro hx
+  have hcy : id ∈ cycs w.stack := by
+    unfold cycs; rw [List.mem_flatMap]; exact ⟨_, hf, by simp [Frame.cyc]⟩
+  exact (reachable_vEv_ok h b id hx).2 hcy
+
+/-- **… nor after the guard released the box** (the closure or an automatic collection panicked): no step of any later
+reachable world runs a destructor or finalizer on a released box, the box stays released, and every `Weak` to it reports
+`strong_count() = 0` and cannot be upgraded — permanently. -/
+theorem released_never_touched (c : Cfg) (nH nW nK : Nat) (w : World) (h : Reachable c nH nW nK w) (id : Id)
+    (hx : id < w.next) (hd : (w.heap id).boxLive = false) :
+    (∀ b, (b, id) ∉ vEv (newEvents w (step c w))) ∧ ((step c w).heap id).boxLive = false ∧ w.weakStrong (.to id) = 0 := by
+  refine ⟨fun b hb => ?_, freed_stays_freed c w (reachable_all c nH nW nK w h).fresh id hx hd, ?_⟩
+  · have := (reachable_vEv_ok h b id hb).1
+    rw [hd] at this; cases this
+  · have hr : (w.heap id).rc = 0 := ((reachable_all c nH nW nK w h).inv.oi.dead id hd).1
+    exact closure_weak_dead w id hr
 
 end RustCc.C14
